@@ -61,6 +61,7 @@ func runTaintProp(p *Prog, r *Report, prop string) {
 		return
 	}
 	t.checkSanitiserShapes(r, "E5")
+	t.checkSanitiserScan(r, "E5-scan")
 	scratch := map[string]bool{"bufK": true, "bufV": true, "mulHeader": true}
 	kvWriters := map[string]bool{"setArg": true, "setArgBytes": true, "appendArg": true, "appendArgBytes": true}
 	// sink fields (clean by induction)
